@@ -114,6 +114,11 @@ def ops : List (String × Op) := [
   ("aacodons", do let a ← pChar; pure (showP showCodons (aaCodons a))),
   ("complement", do let n ← pText; let c ← pChar; pure (showOptChar (complementChar n c))),
   ("complement2", do let n ← pText; let c ← pChar; pure (showOptChar (complementTwice n c))),
+  ("revcomp", do
+      let n ← pText; let t ← pText
+      pure (match reverseComplement n (if t == "_".toList then [] else t) with
+            | some r => "ok " ++ (if r.isEmpty then "_" else String.ofList r)
+            | none => "none")),
   ("alphabet", do
       let n ← pText
       pure (showP (fun (p : List Char × Bool) => s!"{str p.1} {showBool p.2}") (alphabetInfo n))),
